@@ -179,7 +179,7 @@ func witnesses(g int) []witness {
 			x.newBlock(100)
 			x.allSign()
 			x.ownerMsg("activate", a)
-			x.evidence([][3]int64{{int64(b), x.h - 1, x.t - 5}})
+			x.evidence([][3]int64{{int64(b), x.h - 1, x.t - 5e9}})
 			x.proposal("unjail", a)
 			x.end()
 			x.newBlock(100)
@@ -196,7 +196,7 @@ func witnesses(g int) []witness {
 			x.ownerMsg("unpause", b) // pause + unpause in one block: harmless power-1 update of a present key
 			x.end()
 			x.newBlock(5)
-			x.evidence([][3]int64{{int64(c), x.h - 1, x.t - 5}})
+			x.evidence([][3]int64{{int64(c), x.h - 1, x.t - 5e9}})
 			x.end()
 			x.newBlock(700) // unjail window (600) missed
 			x.allSign()
@@ -226,7 +226,7 @@ func witnesses(g int) []witness {
 			setup(x, a, b)
 			x.newBlock(5)
 			x.allSign()
-			x.evidence([][3]int64{{int64(a), x.h - 1, x.t - 5}})
+			x.evidence([][3]int64{{int64(a), x.h - 1, x.t - 5e9}})
 			x.end()
 			x.newBlock(5)
 			x.allSign()
@@ -238,7 +238,7 @@ func witnesses(g int) []witness {
 			miss2(x, a)
 			x.newBlock(5)
 			x.allSign()
-			x.evidence([][3]int64{{int64(a), x.h - 1, x.t - 5}})
+			x.evidence([][3]int64{{int64(a), x.h - 1, x.t - 5e9}})
 			x.end()
 		}},
 		{"jail-paused", 0, func(x *hist, r *hx.Rng) {
@@ -249,7 +249,7 @@ func witnesses(g int) []witness {
 			x.end()
 			x.newBlock(5)
 			x.allSign()
-			x.evidence([][3]int64{{int64(a), x.h - 1, x.t - 5}})
+			x.evidence([][3]int64{{int64(a), x.h - 1, x.t - 5e9}})
 			x.end()
 		}},
 		{"upgrade-pause-paused", 0, func(x *hist, r *hx.Rng) {
@@ -267,7 +267,7 @@ func witnesses(g int) []witness {
 			setup(x, a, b)
 			x.newBlock(5)
 			x.allSign()
-			x.evidence([][3]int64{{int64(a), x.h - 1, x.t - 5}})
+			x.evidence([][3]int64{{int64(a), x.h - 1, x.t - 5e9}})
 			x.end()
 			x.newBlock(5)
 			x.upgradePause([]int64{int64(a)}, r)
@@ -278,7 +278,7 @@ func witnesses(g int) []witness {
 			setup(x, a, b)
 			x.newBlock(5)
 			x.allSign()
-			x.evidence([][3]int64{{int64(a), x.h - 1, x.t - 5}})
+			x.evidence([][3]int64{{int64(a), x.h - 1, x.t - 5e9}})
 			x.end()
 			x.newBlock(5)
 			x.upgradePause([]int64{int64(a)}, r)
@@ -318,7 +318,7 @@ func witnesses(g int) []witness {
 		{"evidence-last-active", 0, func(x *hist, r *hx.Rng) {
 			x.newBlock(5)
 			x.allSign()
-			x.evidence([][3]int64{{int64(g), x.h - 1, x.t - 5}})
+			x.evidence([][3]int64{{int64(g), x.h - 1, x.t - 5e9}})
 			x.end()
 		}},
 		{"shared-consensus-key", 0, func(x *hist, r *hx.Rng) {
@@ -380,7 +380,7 @@ func witnesses(g int) []witness {
 			setup(x, a, b)
 			x.newBlock(5)
 			x.allSign()
-			x.evidence([][3]int64{{int64(a), x.h - 1, x.t - 5}})
+			x.evidence([][3]int64{{int64(a), x.h - 1, x.t - 5e9}})
 			x.end()
 			x.newBlock(5)
 			x.allSign()
@@ -397,7 +397,7 @@ func witnesses(g int) []witness {
 			x.end()
 			x.newBlock(5)
 			x.allSign(int64(b))
-			x.evidence([][3]int64{{int64(c), x.h - 1, x.t - 5}})
+			x.evidence([][3]int64{{int64(c), x.h - 1, x.t - 5e9}})
 			x.end()
 			x.genesis(nil) // a PAUSED, b INACTIVE, c JAILED, g ACTIVE
 			x.newBlock(100)
@@ -425,7 +425,7 @@ func witnesses(g int) []witness {
 		{"genesis-import-nobody-active", 0, func(x *hist, r *hx.Rng) {
 			x.newBlock(5)
 			x.allSign()
-			x.evidence([][3]int64{{int64(g), x.h - 1, x.t - 5}})
+			x.evidence([][3]int64{{int64(g), x.h - 1, x.t - 5e9}})
 			x.genesis(nil)
 		}},
 		{"max-mischance-lowered-mid-run", 0, func(x *hist, r *hx.Rng) {
@@ -519,7 +519,40 @@ func generate(x *hist, r *hx.Rng, inject int, g, unknownKey int, c15 bool) {
 	}
 	outage := map[int]int{} // validator id -> remaining blocks of outage
 	for b := 0; b < nblocks && !x.dead; b++ {
-		x.newBlock(dts[r.Intn(len(dts))])
+		// block time: whole seconds plus a nanosecond part; in a third of the blocks the time is put on (or
+		// 1 ns / half a second / 999 ms / 1 s around) a stored deadline: the end of an inactivity period or
+		// of an unjail window -- and the corresponding operation is then attempted in that block
+		forcedKind, forcedID := "", -1
+		dtNs := dts[r.Intn(len(dts))]*1e9 + []int64{0, 0, 1, 999999999, 500000000, int64(r.Intn(1000000000))}[r.Intn(6)]
+		if r.Chance(33) {
+			type bnd struct {
+				at   int64
+				kind string
+				id   int
+			}
+			var bs []bnd
+			for _, id := range sortedKeysV(x.prev.Vals) {
+				v := x.prev.Vals[id]
+				if v.Status == stInactive {
+					bs = append(bs, bnd{x.prev.SI[int(v.Cons)].Until, "activate", id})
+				}
+				if v.Status == stJailed {
+					for _, j := range x.prev.Jail {
+						if int(j[0]) == id {
+							bs = append(bs, bnd{j[1] + int64(x.cur.Unjail)*1e9, "unjail", id})
+						}
+					}
+				}
+			}
+			if len(bs) > 0 {
+				b0 := bs[r.Intn(len(bs))]
+				d := []int64{-1000000000, -999000000, -500000000, -1, 0, 1, 1000000000}[r.Intn(7)]
+				if b0.at+d > x.t {
+					dtNs, forcedKind, forcedID = b0.at+d-x.t, b0.kind, b0.id
+				}
+			}
+		}
+		x.newBlockNs(dtNs)
 		want := !injected && b >= injectAt
 		active := x.withStatus(stActive)
 		// the protected validator: active, in the consensus set: signs, and is not named by any
@@ -637,7 +670,7 @@ func generate(x *hist, r *hx.Rng, inject int, g, unknownKey int, c15 bool) {
 			if len(tg) > 0 {
 				injected = true
 				id := tg[r.Intn(len(tg))]
-				x.evidence([][3]int64{{x.prev.Vals[id].Cons, x.h - 1, x.t - 1}})
+				x.evidence([][3]int64{{x.prev.Vals[id].Cons, x.h - 1, x.t - 1e9}})
 				if !x.dead {
 					x.end()
 				}
@@ -668,12 +701,12 @@ func generate(x *hist, r *hx.Rng, inject int, g, unknownKey int, c15 bool) {
 						}
 					}
 				}
-				ih, it := x.h-1-int64(r.Intn(3)), x.t-int64(r.Intn(20))
+				ih, it := x.h-1-int64(r.Intn(3)), x.t-int64(r.Intn(20))*1e9-int64(r.Intn(1000))
 				if r.Chance(20) { // old evidence
-					ih, it = x.h-int64(r.Intn(8)), x.t-int64(r.Intn(1200))
+					ih, it = x.h-int64(r.Intn(8)), x.t-int64(r.Intn(1200))*1e9-int64(r.Intn(3))+1
 				}
 				cf := configs[x.cfg]
-				old := x.t-it > cf.EvAgeDur && x.h-ih > cf.EvAgeBlocks
+				old := x.t-it > cf.EvAgeDur*1e9 && x.h-ih > cf.EvAgeBlocks
 				if !ok && !old {
 					continue
 				}
@@ -742,6 +775,9 @@ func generate(x *hist, r *hx.Rng, inject int, g, unknownKey int, c15 bool) {
 				continue
 			}
 		}
+		if forcedKind == "activate" {
+			x.ownerMsg("activate", forcedID)
+		}
 		nm := r.Intn(4)
 		if b == 0 {
 			nm = 2 + r.Intn(3)
@@ -750,6 +786,9 @@ func generate(x *hist, r *hx.Rng, inject int, g, unknownKey int, c15 bool) {
 			x.genMsg(r, false, protected, b == 0)
 		}
 		// ---- proposals
+		if forcedKind == "unjail" {
+			x.proposal("unjail", forcedID)
+		}
 		if r.Chance(18) {
 			j := x.withStatus(stJailed)
 			if len(j) > 0 && r.Chance(85) {
